@@ -10,6 +10,7 @@ import (
 	"time"
 
 	"github.com/nelhage/taktician/prove"
+	"github.com/nelhage/taktician/ptn"
 	"github.com/nelhage/taktician/tak"
 )
 
@@ -421,6 +422,53 @@ func genC06(c *Ctx) {
 			}
 			if o, _ := q.GameOver(); !o && q != root {
 				ask(q, "grandchild")
+			}
+		}
+	}
+	// (6c) the same, exhaustively below one fixed root (3x3, five stones a side, after b1 b2 b2+ Sa3): every position two
+	// plies below, in generation order, on one solver with a roomy table
+	if c.Shard == 0 {
+		caseNo++
+		c.Emit(fmt.Sprintf("case %d.%d", c.Shard, caseNo))
+		c.Emit(fmt.Sprintf("dfpnnew d %s %d", colorStr(tak.NoColor), dfpnEntries[len(dfpnEntries)-1]))
+		root := tak.New(tak.Config{Size: 3, Pieces: 5})
+		for _, t := range []string{"b1", "b2", "b2+", "Sa3"} {
+			m, _ := ptn.ParseMove(t)
+			root, _ = root.Move(m)
+		}
+		asked := 0
+		askF := func(p *tak.Position) {
+			d, _ := c.S.slots["dfpn:d"].(*prove.DFPNSolver)
+			bud := c.dfpnBudget()
+			if asked == 0 {
+				bud *= 20 // the root call fills the table: it may cost more than the others
+			}
+			if d != nil && dfpnFinishesOn(d, p, 3*time.Second, bud) {
+				tagResult(c, "dfpn.below-fixed", c.Emit("dfpnuse d b2 "+encPos(p)))
+				asked++
+			}
+		}
+		askF(root)
+		lim := 120 // (not c.Scale: this session runs in shard 0 only)
+		if c.Thorough() {
+			lim = 400
+		}
+		for _, m1 := range legalMoves(root) {
+			p1, err := root.Move(m1)
+			if err != nil {
+				continue
+			}
+			if o, _ := p1.GameOver(); o {
+				continue
+			}
+			for _, m2 := range legalMoves(p1) {
+				p2, err := p1.Move(m2)
+				if err != nil || asked >= lim {
+					continue
+				}
+				if o, _ := p2.GameOver(); !o {
+					askF(p2)
+				}
 			}
 		}
 	}
